@@ -10,9 +10,12 @@ Ev == Events(h)[l]
 More == l <= Len(Events(h))
 Step == l' = l + 1 /\ h' = h
 NodeRanges == {[s |-> Ev.nodes[i][1], e |-> Ev.nodes[i][2]] : i \in DOMAIN Ev.nodes}
+(* after Write/Free: the bytes in memory (union of the node ranges) are exactly the model's; after a query (the model
+   does not change) only the amount is compared *)
 Obs == /\ Ev.ub = FALSE
-       /\ Disjoint(NodeRanges) /\ Cardinality(NodeRanges) = Len(Ev.nodes)
-       /\ TotalLen(NodeRanges) = TotalLen(segs') /\ \A g \in segs' : FullyIn(NodeRanges, g.s, g.e)
+       /\ TotalLen(NodeRanges) = TotalLen(segs')
+       /\ Ev.e \in {"Write", "Free"} => /\ Disjoint(NodeRanges) /\ Cardinality(NodeRanges) = Len(Ev.nodes)
+                                        /\ \A g \in segs' : FullyIn(NodeRanges, g.s, g.e)
 Act == \/ Ev.e = "Write" /\ Ev.w = nextW /\ Write(Ev.off, Ev.len, Ev.skip, Ev.ret)
        \/ Ev.e = "Free" /\ FreeUpTo(Ev.t, NodeRanges)
        \/ Ev.e = "Copy" /\ Copy(Ev.off, Ev.len, Ev.skip, Ev.ret, Ev.runs)
